@@ -101,6 +101,11 @@ check("C07", "property test / fuzzing of the whole compiler pipeline in crash-is
       "The recorded crash families (recursion-limit panics in compare.rs / unify.rs, a stack overflow, an unserialisable Ellipsis constant, lower_class_def) are known findings keyed by panic site; the abort signature `abort:signal 6` is coarse (any stack overflow).",
       "DESIGN.md §3 C07")
 
+check("C18", "property test against a reference model: generated constant values vs strict JSON parse of the JSON-target output",
+      "Modules of public bindings (private ones interleaved) with initialisers from a value grammar of depth <= 3 (naturals to 2**64-1, negative integers, floats, strings with quotes/backslashes/control/non-ASCII characters, booleans, None, lists, tuples, records, string-keyed dicts, references to earlier bindings, constant sums) are transpiled with the JSON target in-process; the output must parse with serde_json into exactly the object the generator's model predicts.",
+      "References are generated at the top level of an initialiser only; modules the transpiler declines with a diagnostic are counted, not judged.",
+      "DESIGN.md §3 C18")
+
 NOT_APPLICABLE = {}
 
 def main():
